@@ -1,22 +1,22 @@
 SPECIFICATION MCSpec
 CONSTANTS
   Groups = {"g1","g2"}
-  Names = {"s1","s2"}
+  Names = {"s1"}
   Dev = {}
   Cap = 0
   MaxLimit = 10000
   DefLimit = 1000
-  Acts = {"groups","relays","snaps"}
-  Nids = {"n1","n2"}
+  Acts = {"groups","msgs"}
+  Nids = {}
   Epochs = {1}
   Ptrs = {}
   Relays = {"r1"}
   SecEpochs = {0}
   SecVals = {1}
-  MsgIds = {1}
-  CAs = {10}
-  PAs = {20}
-  MsgEpochs = {}
+  MsgIds = {1,2}
+  CAs = {10,11}
+  PAs = {20,21}
+  MsgEpochs = {1,2}
   MsgStates = {"processed"}
   Tags = {""}
   Wrappers = {1}
@@ -39,5 +39,6 @@ CONSTANTS
 VIEW MCView
 INVARIANT TypeInv
 INVARIANT InvC10Plain
+INVARIANT InvC18
 PROPERTY PropC09Plain
 CHECK_DEADLOCK FALSE
